@@ -441,7 +441,7 @@ func run(c *props.Ctx) {
 	c.R.Bounds["max_rule_check_slots"] = 3
 	c.R.Bounds["max_stat_slots"] = ns
 	c.R.Bounds["chains"] = len(preps) * len(checks) * len(stats)
-	idx := 0
+	idx, mine := 0, 0
 	perSig := map[string]int{}
 	for _, p := range preps {
 		for _, ck := range checks {
@@ -450,7 +450,8 @@ func run(c *props.Ctx) {
 				if !c.Mine(idx) {
 					continue
 				}
-				if idx%4096 == 0 && c.Expired() {
+				mine++
+				if mine%4096 == 0 && c.Expired() { // counted per shard: idx%4096 only ever coincides with shard 0's share
 					c.R.Cap("time budget reached before all chains were evaluated")
 					return
 				}
